@@ -93,9 +93,14 @@ func genSmallShape(t *rapid.T) SmallShape {
 		NPub:   rapid.IntRange(1, 3).Draw(t, "nPub"),
 		NSec:   rapid.IntRange(1, 4).Draw(t, "nSec"),
 	}
-	vals := []uint32{0x01020304, 0x0A0B0C0D, 0, 1<<32 - 1, 30, 4, 1, 0x80000000, rapid.Uint32().Draw(t, "dimrnd")}
-	s.Depth = pick(t, "treeDepth", vals...)
-	s.Batch = pick(t, "batchSize", vals...)
+	// Header values stay inside the dimensions real systems can have (depth 1..32, batch a positive count that
+	// may exceed the number of leaves: deletion batches are padded), so that a reader hardened against absurd
+	// headers is not flagged; they differ from each other and have distinct bytes so swaps and byte-order slips show.
+	s.Depth = uint32(rapid.IntRange(1, 32).Draw(t, "treeDepth"))
+	s.Batch = pick(t, "batchSize", uint32(1), 2, 3, 4, 5, 7, 8, 16, 100, 258, 513, 1000, 4096)
+	if s.Batch == s.Depth {
+		s.Batch++
+	}
 	return s
 }
 
